@@ -1,5 +1,6 @@
 import Tau.Rule
 import Tau.Properties.C06
+import Tau.Properties.C03
 /-
   C13 — validate() agrees with matches() on the rule's own examples.
 -/
@@ -121,5 +122,65 @@ theorem matches_iff (E : RegexEngine) (r : Rule) (d : Doc) :
 /-- Non-vacuity: a scalar example is not a document. -/
 example : yamlDoc? (.num (.int 5)) = none ∧ (yamlDoc? (.map [])).isSome = true := by
   constructor <;> rfl
+
+end Tau.C13
+
+namespace Tau.C13
+open Tau
+
+/-! ### "…all of this holds equally for optimised rules", and validate() never panics -/
+
+/-- `optimise` leaves the example lists alone. -/
+theorem optimise_examples (E : RegexEngine) (sw : Switches) (r : Rule) :
+    (r.optimise E sw).tps = r.tps ∧ (r.optimise E sw).tns = r.tns := by
+  unfold Rule.optimise
+  split <;> simp
+
+/-- **validate() of an optimised rule** (any of the 16 switch combinations) succeeds exactly when
+    every true positive of the rule is a mapping that the OPTIMISED rule matches and every true
+    negative is a mapping it does not match — the same verdicts `matches()` gives on that rule. -/
+theorem validate_optimised_ok_iff (E : RegexEngine) (sw : Switches) (r : Rule) :
+    (r.optimise E sw).validateOk E = true ↔
+      (∀ y ∈ r.tps, tpOk E (r.optimise E sw) y) ∧ (∀ y ∈ r.tns, tnOk E (r.optimise E sw) y) := by
+  have h := validate_ok_iff E (r.optimise E sw)
+  rw [(optimise_examples E sw r).1, (optimise_examples E sw r).2] at h
+  exact h
+
+/-- Wherever optimisation keeps the verdicts (C01's theorems say when), validate() reports exactly
+    the same failing examples before and after. -/
+theorem validate_optimise_agree (E : RegexEngine) (sw : Switches) (r : Rule)
+    (h : ∀ d, (r.optimise E sw).matches E d = r.matches E d) :
+    (r.optimise E sw).validateFailures E = r.validateFailures E := by
+  unfold Rule.validateFailures
+  simp only [(optimise_examples E sw r).1, (optimise_examples E sw r).2, h]
+
+/-- A YAML example is an `Object` with the default path walk. -/
+theorem yamlDoc_obj : ∀ (y : Yaml) (d : Doc), yamlDoc? y = some d → ∃ kvs, d = .obj kvs
+  | .map kvs, d, h => by simp only [yamlDoc?] at h; cases h; exact ⟨_, rfl⟩
+  | .tagged y, d, h => by simp only [yamlDoc?] at h; exact yamlDoc_obj y d h
+  | .null, _, h => by simp [yamlDoc?] at h
+  | .bool _, _, h => by simp [yamlDoc?] at h
+  | .num _, _, h => by simp [yamlDoc?] at h
+  | .str _, _, h => by simp [yamlDoc?] at h
+  | .seq _, _, h => by simp [yamlDoc?] at h
+
+/-- **validate() never reaches a panic site**: for a rule that loaded, evaluating any example that is
+    a mapping (whatever it holds) hits no `unreachable!()`, no undefined identifier, no cache index
+    out of range; an example that is not a mapping is not evaluated at all (`non_mapping_*_reported`,
+    the repaired `unwrap`). -/
+theorem validate_never_panics (E : RegexEngine) (ic : Bool) (src : RuleSrc) (r : Rule)
+    (h : loadRule E ic src = .ok r) (y : Yaml) (d : Doc) (hd : yamlDoc? y = some d) :
+    hitsTop E r.det.ids d r.det.expr = false := by
+  unfold loadRule at h
+  split at h
+  · cases h
+  · rename_i det hdet
+    cases h
+    simp only
+    -- a YAML example is an `Object` with the default path walk
+    obtain ⟨kvs, rfl⟩ := yamlDoc_obj y d hd
+    exact C03.safe_rule_never_panics_mapping E det.ids kvs det.expr
+      (C03.loaded_bodies_safe E ic src.det det hdet)
+      (C03.loaded_condition_safe E ic src.det det hdet (C03.loaded_idents_defined E ic src.det det hdet))
 
 end Tau.C13
